@@ -48,8 +48,17 @@ package cookie
 //@     && arg(MakeCookieFromOptions, 2) == value && arg(MakeCookieFromOptions, 3) == s.Cookie && arg(MakeCookieFromOptions, 4) == expiration
 
 // ------------------------------------------------------------------ C11 / C18: clear
+// NamesCovered: every cookie name Save can emit for a session (the base name and name_k for every part index k)
+// matches the deletion pattern built from the quoted cookie name.
+//@ prop C11
+//@ lemma[NamesCovered; uses quoted-name-pattern] forall n string, k int :: k >= 0 ==> reMatch(reCompile("^" + quoteMeta(n) + "(_\\d+)?$"), n)
+//@     && reMatch(reCompile("^" + quoteMeta(n) + "(_\\d+)?$"), n + "_" + itoa(k))
+//@ lemma[OtherNamesUntouched; uses quoted-name-pattern] forall n string, x string :: reMatch(reCompile("^" + quoteMeta(n) + "(_\\d+)?$"), x) ==> HasPrefix(x, n)
+
 //@ func (*SessionStore).Clear
 //@ prop C11 C18
+//@ at call regexp.MustCompile assert[pattern-from-the-quoted-cookie-name] arg(regexp.MustCompile, 0) == "^" + quoteMeta(s.Cookie.Name) + "(_\\d+)?$"
+//@ at call MatchString assert[matches-with-that-pattern] arg(MatchString, 0) == ret(regexp.MustCompile)
 //@ at call makeCookie assert[deletion-same-name-empty-expired] arg(makeCookie, 2) == c.Name && arg(makeCookie, 3) == ""
 //@     && arg(makeCookie, 4) < 0 && ret(MatchString) && arg(MatchString, 1) == c.Name
 //@ at call http.SetCookie assert[sets-the-deletion] arg(http.SetCookie, 1) == ret(makeCookie) && arg(http.SetCookie, 0) == rw
